@@ -2,12 +2,18 @@ package goat
 
 import (
 	"context"
+	"fmt"
 	"sync"
+
+	"github.com/avos-io/goat/internal"
 )
 
 type demuxConn struct {
 	r chan *Rpc
 	w chan *Rpc
+	// done is closed by Cancel. r and w are never closed, so neither Run nor a
+	// writer can ever send on a closed channel.
+	done chan struct{}
 }
 
 // Wraps a Goat Server, demultiplexing IO.
@@ -66,7 +72,12 @@ func (gsd *Demux) Run() {
 		}
 		gsd.conns.Unlock()
 
-		conn.r <- rpc
+		select {
+		case conn.r <- rpc:
+		case <-conn.done:
+		case <-gsd.ctx.Done():
+			return
+		}
 	}
 }
 
@@ -75,8 +86,7 @@ func (gsd *Demux) Cancel(id string) {
 	defer gsd.conns.Unlock()
 
 	if conn, ok := gsd.conns.value[id]; ok {
-		close(conn.r)
-		close(conn.w)
+		close(conn.done)
 	}
 
 	delete(gsd.conns.value, id)
@@ -84,8 +94,9 @@ func (gsd *Demux) Cancel(id string) {
 
 func (gsd *Demux) newConnLocked(id string) *demuxConn {
 	c := &demuxConn{
-		r: make(chan *Rpc),
-		w: make(chan *Rpc),
+		r:    make(chan *Rpc),
+		w:    make(chan *Rpc),
+		done: make(chan struct{}),
 	}
 
 	go func() {
@@ -93,10 +104,9 @@ func (gsd *Demux) newConnLocked(id string) *demuxConn {
 			select {
 			case <-gsd.ctx.Done():
 				return
-			case rpc, ok := <-c.w:
-				if !ok {
-					return
-				}
+			case <-c.done:
+				return
+			case rpc := <-c.w:
 				err := gsd.rw.Write(gsd.ctx, rpc)
 				if err != nil {
 					return
@@ -107,7 +117,28 @@ func (gsd *Demux) newConnLocked(id string) *demuxConn {
 
 	gsd.conns.value[id] = c
 
-	go gsd.onNewConnection(NewGoatOverChannel(c.r, c.w))
+	go gsd.onNewConnection(internal.NewFnReadWriter(
+		func(ctx context.Context) (*Rpc, error) {
+			select {
+			case <-ctx.Done():
+				return nil, ctx.Err()
+			case <-c.done:
+				return nil, fmt.Errorf("demux connection cancelled")
+			case rpc := <-c.r:
+				return rpc, nil
+			}
+		},
+		func(ctx context.Context, rpc *Rpc) error {
+			select {
+			case <-ctx.Done():
+				return ctx.Err()
+			case <-c.done:
+				return fmt.Errorf("demux connection cancelled")
+			case c.w <- rpc:
+				return nil
+			}
+		},
+	))
 
 	return c
 }
